@@ -57,7 +57,7 @@ CHECKS.update({
         "TLC checks for every object: construction does not panic; parameters_set => documented preconditions on every level, chain = prefix moduli sets with indices decreasing to 0 and consistent prev/next links, "
         "per-level constants equal their definitions, ids reproducible (rebuild and via serialized parameters) and collision-free; otherwise a specific error. Generated moduli: distinct primes of exact size = 1 mod 2N.",
    ref="DESIGN.md 4/C13", note="Trusted: TLC, spec/Params.tla, the projection in harness/src/c13.rs. Accepted contexts with 60-bit moduli do not fit native TLC integers and are outside this check (C01-C07 exercise them); SHA-256 collision freedom beyond the universe is assumed."),
- "C17": dict(cat="model_checking", tech="TLC model-checks spec/KeyCache.tla and spec/GaloisCache.tla (safety + liveness, deviation refuted); every interleaving is replayed on real threads through a deterministic scheduler on the verif-hooks yield points; free runs validated against spec/Trace_Cache.tla",
+ "C17": dict(cat="model_checking", tech="TLC model-checks spec/KeyCache.tla and spec/GaloisCache.tla (safety + liveness, deviation refuted; inductive invariants for any number of threads proved with TLAPS); every interleaving is replayed on real threads through a deterministic scheduler on the verif-hooks yield points; free runs validated against spec/Trace_Cache.tla",
    text="All interleavings of the lock phases of 2-3 threads (thorough: all requested-power combinations, 4 threads sampled) sharing one Decryptor / KeyGenerator / Galois tool: ~59k forced schedules (quick). After every step the yield site and the cache "
         "state reported under the lock must equal the model's, no thread may block, and every thread's result must equal the sequential one. Plus 150/3000 OS-scheduled runs whose lock-ordered events TLC validates (monotone cache, use sees enough).",
    ref="DESIGN.md 4/C17", note="Trusted: TLC, the two cache specs, harness/src/sched.rs. Lock phases are modelled as atomic (hooks yield only where no lock is held); races inside unsafe blocks and Arc::as_ptr().cast_mut() during context construction are below this granularity."),
